@@ -1,6 +1,7 @@
 import Driver.C01
 import Driver.C14
 import Driver.C15
+import Driver.C16
 /-! Line-protocol driver: one request per line `Cxx <op> <args…>`, one answer
 per line. Executes the Lean models for the correspondence check. -/
 
@@ -9,6 +10,7 @@ def dispatch (line : String) : String :=
   | "C01" :: args => Driver.C01.handle args
   | "C14" :: args => Driver.C14.handle args
   | "C15" :: args => Driver.C15.handle args
+  | "C16" :: args => Driver.C16.handle args
   | ["ping"] => "pong"
   | _ => "bad-op"
 
